@@ -44,6 +44,7 @@ type Case struct {
 	Global  bool   // legacy: use WriteEfivars/ReadEfivars (GUID chosen by name)
 	Chunk   int    // read: the file hands out at most Chunk bytes per Read call (0 = no limit)
 	Short   bool   // write: the file system accepts only half of the buffer (short write, nil error)
+	WriteErr string // write: the one write call fails with this errno (EINTR, EAGAIN, EIO, ENOSPC, EACCES) or "injected"
 	Prior   int    // write through the object API: 0 none, 1 an append-write of another variable, 2 a failing write of another variable comes first on the same wrapper
 }
 
@@ -73,6 +74,11 @@ func genCase(t *rapid.T) Case {
 	if rapid.Bool().Draw(t, "otherdir") {
 		// below a root that does not exist on the host: the legacy API probes the host path for the immutable flag
 		c.Dir = "/verif_no_such_root/" + strings.Join(rapid.SliceOfN(rapid.StringMatching(`[a-z0-9_]{1,8}`), 1, 4).Draw(t, "dir"), "/")
+		if rapid.IntRange(0, 3).Draw(t, "oddly_named_directory") == 0 {
+			// directory names are whatever the administrator chose: characters that mean something to format strings,
+			// patterns or shells are ordinary here
+			c.Dir += "/" + rapid.SampledFrom([]string{"100%", "%s-%s", "%d", "%!v", "a b", "snap*", "[x]", "{a,b}", "back\\slash", "\u00e9fi", "-", "$HOME", "~", "..."}).Draw(t, "oddname") + "/efivars"
+		}
 	}
 	if rapid.Bool().Draw(t, "predefined") {
 		v := rapid.SampledFrom(predefined).Draw(t, "var")
@@ -115,6 +121,9 @@ func genCase(t *rapid.T) Case {
 		c.Global = rapid.IntRange(0, 3).Draw(t, "global") == 0
 	}
 	c.Short = c.Op == "write" && rapid.IntRange(0, 5).Draw(t, "shortwrite") == 0
+	if c.Op == "write" && !c.Short && rapid.IntRange(0, 5).Draw(t, "failingwrite") == 0 {
+		c.WriteErr = rapid.SampledFrom([]string{"EINTR", "EAGAIN", "EIO", "ENOSPC", "EACCES", "injected"}).Draw(t, "errno")
+	}
 	if c.Op == "write" && c.API == "object" {
 		c.Prior = rapid.SampledFrom([]int{0, 0, 1, 2}).Draw(t, "prior")
 	}
@@ -156,6 +165,9 @@ func checkCase(c Case) error {
 	rec.ReadChunk = c.Chunk
 	if c.Short {
 		rec.Fault = recfs.Fault{At: 2, Kind: "short"} // fallible calls of a write: OpenFile, Write, Close
+	}
+	if c.WriteErr != "" {
+		rec.Fault = recfs.Fault{At: 2, Kind: "error", Cause: strings.TrimPrefix(c.WriteErr, "injected")}
 	}
 	if c.Chunk > 0 {
 		hx.Class("read/chunked_reader")
@@ -231,6 +243,13 @@ func checkCase(c Case) error {
 			hx.Class("write/short_write_by_the_file_system")
 			if err == nil {
 				return fmt.Errorf("the file system took only half of the buffer (short write) but the write of %s reported success", wantPath)
+			}
+		} else if c.WriteErr != "" {
+			// the firmware refused the write (or the call was interrupted): the caller has to hear of it, and the library
+			// does not write a second time on its own (an append-write would be applied twice)
+			hx.Class("write/write_call_fails_with_" + c.WriteErr)
+			if err == nil {
+				return fmt.Errorf("the write call on %s failed with %s but the write reported success", wantPath, c.WriteErr)
 			}
 		} else if err != nil {
 			return fmt.Errorf("write of %s fails on a working file system: %v", wantPath, err)
